@@ -39,7 +39,7 @@ RowFails(r) ==
     [] OTHER -> {"C19.unknown_row"}
 
 Covered ==
-  LET chanU == (0..(NQ-1)) \X ChannelKinds
+  LET chanU == ((0..(NQ-1)) \cup {300}) \X ChannelKinds
       edgeU == {e \in (0..(NE-1)) \X (0..(NE-1)) : e[1] # e[2]}
       R == {Rows[j] : j \in 1..Len(Rows)} IN
   /\ {<<r.a, r.b>> : r \in {x \in R : x.t = "chan"}} = chanU \X chanU
